@@ -37,6 +37,8 @@ class C02(Prop):
         if rng.random() < 0.35:
             c.dup = 0.35
         f = lang.gen_formula(rng, c)
+        if rng.random() < 0.1:
+            f = lang.with_near_twin(rng, f)
         n = rng.choice([1, 2, 3, 4, 5, 6, 8, 10, 13, 20, 40]) if rng.random() < 0.7 else rng.randint(1, 40)
         names = lang.variables(f) or [c.vars[0]]
         return {'formula': f, 'data': lang.gen_trace(rng, names, n),
